@@ -413,6 +413,112 @@ func runC01(c *Ctx) {
 		c.floor("C01-R8", 2)
 	}
 
+	// closest scope wins when a scope chain is flattened: a loop that walks outward (scope = scope.parent) and
+	// copies bindings into one map must not overwrite a name it has already copied from a closer scope
+	{
+		n := 0
+		for _, fn := range c.srcFuncs(interpPkg) {
+			if fn.Signature.Recv() == nil || !typeIs(derefType(fn.Signature.Recv().Type()), interpPath, "Environment") {
+				continue
+			}
+			for _, lp := range naturalLoops(fn) {
+				// outward walk: a phi at the loop head fed by a load of Environment.parent
+				walks := false
+				for _, ins := range lp.head.Instrs {
+					ph, ok := ins.(*ssa.Phi)
+					if !ok {
+						continue
+					}
+					for _, e := range ph.Edges {
+						if loadedFromField(e, "Environment", "parent") {
+							walks = true
+						}
+					}
+				}
+				if !walks {
+					continue
+				}
+				k := 0
+				for b := range lp.body {
+					for _, ins := range b.Instrs {
+						mu, ok := ins.(*ssa.MapUpdate)
+						if !ok {
+							continue
+						}
+						// the destination is not the scope being walked (a copy into another environment's table)
+						n++
+						k++
+						var notYet []ssa.Value
+						eachInstr(fn, func(_ *ssa.BasicBlock, _ int, x ssa.Instruction) {
+							if lk, ok := x.(*ssa.Lookup); ok && lk.CommaOk && (lk.X == mu.Map || sameVal(lk.X, mu.Map)) && (lk.Index == mu.Key || sameVal(lk.Index, mu.Key)) {
+								notYet = append(notYet, extractOf(lk, 1)...)
+							}
+						})
+						q := &pathQuery{fn: fn, target: func(x ssa.Instruction) bool { return x == ins }, cutEdge: func(bb *ssa.BasicBlock, si int) bool {
+							for _, o := range notYet {
+								if known, val := boolOnEdge(bb, si, o); known && !val {
+									return true
+								}
+							}
+							return false
+						}}
+						hit, _ := q.from(lp.head, 0)
+						c.ob("C01-R2", fnKey(fn)+"#outward-walk-keeps-the-closest-binding-"+itoa(k), mu.Pos(), hit == nil && len(notYet) > 0, "a scope chain is flattened while walking outward (scope = scope.parent) and every scope's bindings are stored into the same table without testing whether the name is already there: the outermost binding of a shadowed name wins, so an async block sees the module constant `limit` instead of the parameter `limit`, and a loop variable named like a route variable reads the route's")
+					}
+				}
+			}
+		}
+		c.Sites["C01-R2#outward-walk-copies"] = n
+	}
+
+	// ---- R10 numeric text is read the same way everywhere
+	c.rule("C01-R10", "SIB: every conversion of program or request text to an integer in the engines (strconv.ParseInt / ParseUint in pkg/interpreter and pkg/vm: the parseInt builtin, typed and untyped query parameters) passes the same constant base and width: parseInt(\"010\") and `?n=010` for `? n: int` denote the same number; base 0 would read a zero-padded decimal string as octal (\"02134\" = 1116) and accept 0x.. and 1_000 in one place only")
+	{
+		type site struct {
+			fn  *ssa.Function
+			pos token.Pos
+			sig string
+		}
+		var sites []site
+		for _, rel := range []string{interpPkg, vmPkg} {
+			for _, fn := range c.srcFuncs(rel) {
+				eachInstr(fn, func(_ *ssa.BasicBlock, _ int, ins ssa.Instruction) {
+					call, ok := ins.(*ssa.Call)
+					if !ok {
+						return
+					}
+					if nm := callName(call); nm != "strconv.ParseInt" && nm != "strconv.ParseUint" {
+						return
+					}
+					sig := "non-constant"
+					if b, ok := constInt(call.Call.Args[1]); ok {
+						if w, ok := constInt(call.Call.Args[2]); ok {
+							sig = "base " + itoa(int(b)) + ", " + itoa(int(w)) + " bits"
+						}
+					}
+					sites = append(sites, site{fn, call.Pos(), sig})
+				})
+			}
+		}
+		count := map[string]int{}
+		for _, st := range sites {
+			count[st.sig]++
+		}
+		major := ""
+		for sg, n := range count {
+			if n > count[major] || (n == count[major] && sg < major) {
+				major = sg
+			}
+		}
+		perFn := map[*ssa.Function]int{}
+		for _, st := range sites {
+			perFn[st.fn]++
+			c.ob("C01-R10", fnKey(st.fn)+"#integer-text-read-like-everywhere-else-"+itoa(perFn[st.fn]), st.pos, st.sig == major && strings.HasPrefix(st.sig, "base 10"), "this site reads integer text with "+st.sig+" while the engines' other sites use "+major+": the same digits denote different numbers depending on where they are converted (a zero-padded id, a value with a 0x prefix or an underscore)")
+		}
+		c.Sites["C01-R10#integer-parse-sites"] = len(sites)
+		c.floor("C01-R10", 2)
+	}
+
 	// ---- R9 every way of calling a function binds its parameters alike
 	c.rule("C01-R9", "SIB: every site of pkg/interpreter that binds the parameters of a user-defined function (Define of a name taken from Function.Params) passes the argument through the int-parameter coercion (a whole float64 - every number of a JSON body - becomes int64 for a parameter declared int): the direct call, the generic call, the pipe and the callback paths (map/filter/reduce) agree, so half(input.n), input.n |> half and map([input.n], half) compute the same")
 	{
